@@ -17,7 +17,6 @@
 package main
 
 import (
-	"strings"
 	"flag"
 	"fmt"
 	"go/ast"
@@ -29,6 +28,7 @@ import (
 	"os"
 	"path/filepath"
 	"sort"
+	"strings"
 )
 
 type pkgInfo struct {
